@@ -33,11 +33,8 @@ Proof.
   - destruct fuel as [|f]; [cbn in Hf; lia|]. cbn [scan_symbol_io app] in *. rewrite app_nil_r in *.
     destruct Hok as [Hdot Hv]. pose proof (symbol_ok_not_truncated _ (conj Hdot Hv)) as Htr.
     destruct rest as [|d rest].
-    + destruct (m_peek_nil r Ha) as (r' & E & Ha'). rewrite (bind_ok _ _ _ _ _ E).
-      rewrite Htr, Hdot. exists r'. unfold ret. repeat split; auto.
-      * unfold peek, r_peek in E. unfold at_bytes in Ha. rewrite Ha in E. cbn in E.
-        destruct (rpending r); inversion E; reflexivity.
-      * congruence.
+    + destruct (m_peek_nil r Ha) as (r' & E & Ha' & Hk'). rewrite (bind_ok _ _ _ _ _ E).
+      rewrite Htr, Hdot. exists r'. unfold ret. repeat split; auto. congruence.
     + destruct (m_peek_cons r d rest Ha) as (r' & E & Ha' & Hp & Hk). rewrite (bind_ok _ _ _ _ _ E).
       cbn [at_terminator] in Ht. rewrite Ht, Hdot. exists r'. unfold ret. repeat split; auto.
   - destruct fuel as [|f]; [cbn in Hf; lia|]. cbn [scan_symbol_io]. cbn [app] in Ha.
